@@ -204,7 +204,7 @@ Proof. intros H Hin. destruct (ext_In _ _ _ _ H Hin) as [Hi|[]]. exact Hi. Qed.
 (* proves  ext P (log s0) (log <explicit state term over s0>)  *)
 Ltac ext_auto :=
   unfold Q, NI; sproj;
-  repeat (match goal with |- ext _ _ (_ :: _) => apply ext_cons; [first [exact eq_refl | exact I]|] end);
+  repeat (match goal with |- ext _ _ (_ :: _) => apply ext_cons; [first [exact eq_refl | exact I | exact (conj eq_refl eq_refl)]|] end);
   first [apply ext_refl | assumption].
 
 Lemma Q_emit e s : quiet e -> Q s (emit e s).
